@@ -57,3 +57,12 @@ KERNELS = [
     K("k_root_env_l2", F, "KeyCache._get_key", ("callarg", "GroupKeyEnvelope", 0, "l2"), [], Z, props=("C10", "C02")),
     K("k_root_env_flags", F, "KeyCache._get_key", ("callarg", "GroupKeyEnvelope", 0, "flags"), [], Z, props=("C10", "C02")),
 ]
+
+
+# the async public functions must be the same programs as the sync ones up to await / the _async_ helpers (C10 is stated for both)
+TWINS = [
+    ("C10", "_client.py", "ncrypt_unprotect_secret", "async_ncrypt_unprotect_secret",
+     {"async_lookup_dc": "lookup_dc", "_async_get_key": "_sync_get_key"}),
+    ("C10", "_client.py", "ncrypt_protect_secret", "async_ncrypt_protect_secret",
+     {"async_lookup_dc": "lookup_dc", "_async_get_key": "_sync_get_key"}),
+]
